@@ -358,6 +358,27 @@ def compare(c, rng=None, max_pairs: int = 40, max_vis_photons: int = 2, tol: flo
     return "compared", problems
 
 
+def scribble_probe(c):
+    """Reads U_full and U, overwrites the returned arrays in place and reads again: the circuit must report the
+    same matrices as before (what the API returns must not alias internal state). Returns a problem string or None."""
+    try:
+        a = c.U_full
+        keep = a.copy()
+        b = c.U
+        if a.size:
+            a *= 0
+            a += 7.5
+        if b.size:
+            b[...] = -3.25
+        again = c.U_full
+        STATS["scribble_probes"] += 1
+        if again.shape != keep.shape or not np.array_equal(again, keep):
+            return "overwriting the array returned by U_full / U changed what the circuit reports afterwards"
+    except Exception as e:  # noqa: BLE001
+        STATS["scribble_probe_error:" + type(e).__name__] += 1
+    return None
+
+
 # ----------------------------------------------------------------------------
 # cheap structural fingerprint (used for "a raising call changes nothing")
 # ----------------------------------------------------------------------------
